@@ -490,6 +490,7 @@ func TestC04Keys(t *testing.T) {
 type clientCase struct {
 	Scenario *scen.Scenario
 	Attack   string
+	Run      int `json:",omitempty"` // bad packets in a row
 }
 
 func judgeClient(c clientCase, res *scen.Result, runErr error) (string, error) {
@@ -537,7 +538,11 @@ func evalClient(c clientCase) error {
 	res, runErr := scen.RunChild(c.Scenario, 120*time.Second)
 	verdict, err := judgeClient(c, res, runErr)
 	b, _ := json.Marshal(c.Scenario.RPC.Steps)
-	run.Case(verdict != "inconclusive", evid.Hash(b, c.Scenario.Resume.AuthKey), "client:"+c.Attack, "client-verdict:"+verdict)
+	cls := []string{"client:" + c.Attack, "client-verdict:" + verdict}
+	if c.Run >= 45 {
+		cls = append(cls, "client:>=45-bad-packets-in-a-row")
+	}
+	run.Case(verdict != "inconclusive", evid.Hash(b, c.Scenario.Resume.AuthKey), cls...)
 	return err
 }
 
@@ -567,12 +572,24 @@ func TestC04Client(t *testing.T) {
 			{Op: "call", Calls: []scen.CallSpec{{Caller: 0, Reqs: []scen.ReqSpec{{Tag: tag, Kind: kind}}}}},
 			{Op: "await-requests", N: 1},
 			{Op: "push", Push: push},
-			{Op: "sleep", Ms: 5},
-			{Op: "answer", Items: []scen.AnsItem{{Tag: tag}}},
-			{Op: "await-calls"},
-			{Op: "probe"},
 		}
-		c := clientCase{Scenario: sc, Attack: attack}
+		runLen := 1
+		if strings.HasPrefix(attack, "mangled:") && rapid.IntRange(0, 3).Draw(t, "in-a-row") == 0 {
+			// somebody on the path keeps at it: dozens of bad packets in a row, nothing genuine in between
+			runLen = rapid.SampledFrom([]int{45, 64, 70, 130}).Draw(t, "run")
+			for k := 1; k < runLen; k++ {
+				pk := *push
+				pk.Kind = rapid.SampledFrom(clientAttacks[2:]).Draw(t, "attack-k")
+				pk.Body = append([]byte{byte(k), byte(k * 7), byte(k >> 3), byte(k * 13)}, push.Body[4:]...)
+				sc.RPC.Steps = append(sc.RPC.Steps, scen.Step{Op: "push", Push: &pk})
+			}
+		}
+		sc.RPC.Steps = append(sc.RPC.Steps,
+			scen.Step{Op: "sleep", Ms: 5},
+			scen.Step{Op: "answer", Items: []scen.AnsItem{{Tag: tag}}},
+			scen.Step{Op: "await-calls"},
+			scen.Step{Op: "probe"})
+		c := clientCase{Scenario: sc, Attack: attack, Run: runLen}
 		if err := evalClient(c); err != nil {
 			if strings.HasPrefix(err.Error(), "INFRA:") {
 				t.Skipf("%v", err)
